@@ -23,7 +23,7 @@ ASSUMPTIONS = [
     "forked / multi-process savers are exercised in-process only",
     "threaded scenarios run under the deterministic default schedule (so operation numbering is stable); schedule x fault combinations only in the thorough tier (delay bound 1)",
 ]
-BOUNDS = {"quick": "14 scenarios, all single faults + retry", "thorough": "14 scenarios, single faults + retry + second fault during retry (every k2 for a rotating slice of k); schedule exploration of pool/threaded saving with one fault"}
+BOUNDS = {"quick": "16 scenarios, all single faults + retry", "thorough": "16 scenarios, single faults + retry + second fault during retry (every k2 for a rotating slice of k); schedule exploration of pool/threaded saving with one fault"}
 RUN = "0"
 
 IV = ((0, 1), (2, 3), (4, 5), (5, 6))
@@ -47,9 +47,10 @@ class Scenario:
 
 
 class MakeScenario(Scenario):
-    def __init__(self, gname, bounds, rechunk, processor, workers=None, call="make", prebroken=False, forbid=None):
+    def __init__(self, gname, bounds, rechunk, processor, workers=None, call="make", prebroken=False, forbid=None, inline=False):
         self.gname, self.bounds, self.rechunk, self.processor, self.workers, self.call, self.prebroken = gname, bounds, rechunk, processor, workers, call, prebroken
-        self.name = f"{call}:{gname}:{processor}:w{workers}:rc{rechunk}:b{len(bounds)-1}" + (":prebroken" if prebroken else "")
+        self.inline = inline  # allow_multiprocess + parallel='process' plugins -> ParallelSourcePlugin with inlined (forked) savers, run in-process
+        self.name = f"{call}:{gname}:{processor}:w{workers}:rc{rechunk}:b{len(bounds)-1}" + (":prebroken" if prebroken else "") + (":inlined" if inline else "")
         self.threaded = processor == "threaded_mailbox"
         self.spec = g.catalogue()[gname]
         self.sources = {n["name"]: dict(iv=IV, bounds=bounds) for n in self.spec if n["kind"] == "source"}
@@ -67,6 +68,9 @@ class MakeScenario(Scenario):
                     a["chunk_target_size_mb"] = g.target_size_rows(self.rechunk, g.provides_of(n)[0])
             if self.workers and n["kind"] in ("map",):
                 a["parallel"] = "thread"
+            if self.inline:
+                a["parallel"] = "process"
+                a["rechunk_on_save"] = False
             attrs[n["name"]] = a
         world = g.World(self.spec, self.sources)
         return g.make_classes(self.spec, world, attrs)
@@ -74,7 +78,7 @@ class MakeScenario(Scenario):
     def build(self, d):
         cl = self.classes()
         opts = dict(g.CTX_DEFAULTS)
-        opts.update(allow_rechunk=self.rechunk is not None)
+        opts.update(allow_rechunk=self.rechunk is not None, allow_multiprocess=self.inline)
 
         def ctx():
             return strax.Context(storage=[strax.DataDirectory(d)], register=cl, **opts)
@@ -198,6 +202,8 @@ def scenarios(tier):
             SaverScenario(True, 1),
             CopyScenario(False),
             MakeScenario("diamond", b2, None, "single_thread"),
+            MakeScenario("chain2", b3, None, "threaded_mailbox", workers=2, inline=True),
+            MakeScenario("chain3", b3, None, "threaded_mailbox", workers=2, inline=True),
         ]
     return S
 
@@ -260,7 +266,10 @@ def run_fault(res, sc, si, fault, fault2=None):
     except fsfault.Died as e:
         exc = e
     except ctxrun.Deadlock as e:
-        res.violation(f"fault:deadlock:{sc.name.split(':')[0]}", f"{e}", case)
+        # after process death (every later file operation raises Died, a BaseException that simply ends the thread it
+        # hits) the surviving threads of our in-process simulation wait for ever: that is the dead process, not a hang
+        if not (fault is not None and fault[0] == "die" and fsfault.ST.fired):
+            res.violation(f"fault:deadlock:{sc.name.split(':')[0]}", f"{e}", case)
         exc = e
     except Exception as e:
         exc = e
